@@ -11,7 +11,7 @@
    In-block decoding is an oracle value per block (Ok objs | Err | Panic), see checks.d/C06.json. *)
 From Coq Require Import ZArith List Bool Lia.
 From Verif Require Import Framing.Model Framing.Valid Framing.Proofs Framing.GenOk Framing.Bytes C06.ProofsBytes
-                          C06.Spec C06.Proofs C06.ProofsDamage C06.InBlock C06.Bridge.
+                          C06.Spec C06.Proofs C06.ProofsDamage C06.InBlock C06.Bridge C06.Skip.
 Import ListNotations.
 Open Scope Z_scope.
 
@@ -38,7 +38,7 @@ Print Assumptions C06_truncation_deliveries.
    the file, scanning the first k bytes delivers the blocks wholly before k and ends without error
    iff k is a block boundary. *)
 Theorem C06_truncation_every_byte_offset :
-  forall (T : Type) (parse_hdr : list Z -> hdr) (parse_blob : list Z -> blobp T)
+  forall (T : Type) (parse_hdr : list Z -> hdr) (parse_blob : btype -> list Z -> blobp T)
          (bfs : list bframe) (k : nat),
   valid_bytes parse_hdr parse_blob bfs -> (k <= length (encode bfs))%nat ->
   let fs := map (abstract parse_hdr parse_blob) bfs in
@@ -52,7 +52,7 @@ Print Assumptions C06_truncation_every_byte_offset.
    an in-range datasize = blob length; anything else may be damaged) the byte-level scan IS the
    frame-level scan with avail = k, for both variants of the code *)
 Theorem C06_bytes_refine :
-  forall (T : Type) (parse_hdr : list Z -> hdr) (parse_blob : list Z -> blobp T) v
+  forall (T : Type) (parse_hdr : list Z -> hdr) (parse_blob : btype -> list Z -> blobp T) v
          (bfs : list bframe) (k : nat),
   Forall (aligned parse_hdr) bfs -> Forall (fun bf => 0 <= bf_pfx bf) bfs ->
   (k <= length (encode bfs))%nat ->
@@ -81,10 +81,7 @@ Theorem C06_damage_detected_objects : forall (T : Type) (good : list (frame T)) 
   damaged (match good with [] => true | _ => false end) bad (avail - total_size good) = true ->
   objects (scan current (good ++ bad :: rest) avail) = objs_of good /\
   out (scan current (good ++ bad :: rest) avail) = Failed.
-Proof.
-  intros T good bad rest avail Hv Hd. rewrite (damage_detected good bad rest avail Hv Hd).
-  split; [exact (objs_spec_deliveries good Hv)|reflexivity].
-Qed.
+Proof. exact (@damage_detected_objects). Qed.
 Print Assumptions C06_damage_detected_objects.
 
 (* each damage class separately: the damaged frame makes readFileBlock / the block decoder fail *)
@@ -93,9 +90,13 @@ Theorem C06_each_damage_fails : forall (T : Type) d first (f : frame T) a,
 Proof. exact (@damage_fails). Qed.
 Print Assumptions C06_each_damage_fails.
 
-(* 3. The framing layer never panics: for EVERY frame list (any damage, any garbage) and any
-      amount of available input the scan does not crash, provided no block decoder panics
-      (in-block decoding is layer L1). *)
+(* 3. The framing layer never panics: for every frame list and any amount of available input the
+      scan does not crash, provided no block decoder panics (in-block decoding is layer L1).
+      SCOPE: a frame list describes input in which every length field that passes its range check
+      tells the truth and nothing follows the last frame; when a prefix differs from the length
+      of the BlobHeader, a datasize from the length of the Blob, or bytes follow the last frame,
+      the frame model answers [OutOfModel], which satisfies this statement (and 3b) trivially.
+      The statement WITHOUT that escape is 3c below, on bytes. *)
 Theorem C06_never_crashes : forall (T : Type) (fs : list (frame T)) avail,
   forallb no_dpanic fs = true -> out (scan current fs avail) <> Crashed.
 Proof. exact (@scan_never_crashes). Qed.
@@ -138,16 +139,68 @@ Theorem C06_in_block_damage_detected :
 Proof. exact in_block_damage_detected. Qed.
 Print Assumptions C06_in_block_damage_detected.
 
-(* 3b. ... and never hangs: on EVERY frame list and any amount of input no decoder of the repaired
-   code fails to return (in particular when bytes follow the zlib stream inside zlib_data). *)
+(* 2c. SCOPE of 2b: the element kinds the scan decodes (every constructor of [in_block_damage] except
+   the plain Node group carries skip_* = false).  A kind the scanner is told to skip is stepped
+   over at the protobuf level, so damage inside it is not, and cannot be, reported: two block trees
+   that differ only inside PrimitiveGroup fields of skipped kinds decode alike from every state
+   (so a block damaged there yields what the undamaged block yields: the objects of the other
+   kinds).  Stated in checks.d/C06.json `assumptions`. *)
+Theorem C06_skipped_kind_is_not_read : forall c st m1 m2,
+  Forall2 (same_top c) m1 m2 ->
+  Verif.Pbf.Model.scan_result c st m1 = Verif.Pbf.Model.scan_result c st m2.
+Proof. exact skipped_kind_is_not_read. Qed.
+Print Assumptions C06_skipped_kind_is_not_read.
+
+(* 3b. ... and never hangs (same scope as 3).  The model has ONE source of a hang, the streaming
+   czlib reader on bytes that follow the zlib stream (flag v_trailing_spins, false in [current]);
+   the content of this statement is that no other model outcome maps to [Hung], which is true by
+   construction.  That the pipeline of goroutines always returns is property C02
+   (C02_next_returns, on the pipeline LTS); that the real decoder returns is observed by the
+   child-process watchdog of the harness. *)
 Theorem C06_never_hangs : forall (T : Type) (fs : list (frame T)) avail,
   out (scan current fs avail) <> Hung.
 Proof. exact (@scan_never_hangs). Qed.
 Print Assumptions C06_never_hangs.
 
+(* 3c. EVERY byte string: no alignment, no validity, lying prefixes and datasizes, stray bytes after
+   the last block, garbage.  proto.Unmarshal of BlobHeader and Blob are ARBITRARY functions of the
+   bytes read; the payload of a data block is what a worker in any decoder state makes of any
+   message tree (layer L1, any in-block damage).  The scan of the current code ends with success or
+   with an error: never a crash, never a hang, never an outcome outside the model (in particular
+   the reader loop's fuel, one iteration per remaining byte, is never used up). *)
+Theorem C06_every_byte_string_ends_in_done_or_error :
+  forall (c : Verif.Pbf.Model.cfg) (parse_hdr : list Z -> hdr)
+         (parse_blob : btype -> list Z -> blobp Verif.Pbf.Model.obj),
+  parses_trees c parse_blob ->
+  forall s : list Z,
+    out (b_scan parse_hdr parse_blob current s) = Done \/
+    out (b_scan parse_hdr parse_blob current s) = Failed.
+Proof. exact every_byte_string_settles. Qed.
+Print Assumptions C06_every_byte_string_ends_in_done_or_error.
+
+(* the same for any object type and oracle block decoder that does not panic *)
+Theorem C06_every_byte_string_generic :
+  forall (T : Type) (parse_hdr : list Z -> hdr) (parse_blob : btype -> list Z -> blobp T),
+  parse_sound parse_blob ->
+  forall s : list Z, settled (out (b_scan parse_hdr parse_blob current s)).
+Proof. exact (@b_scan_total). Qed.
+Print Assumptions C06_every_byte_string_generic.
+
 Theorem C06_getData_never_panics : forall cap0 e, get_data current cap0 e <> GPanic.
 Proof. exact get_data_no_panic. Qed.
 Print Assumptions C06_getData_never_panics.
+
+(* getData never lets the inflater produce more than raw_size + 1 bytes (hence less than the blob
+   size limit), whatever length n the zlib stream would inflate to: n is unbounded by the file
+   format (a 2 MiB stream of zeros inflates to 2 GiB), so memory must not follow it *)
+Theorem C06_inflate_bounded : forall e, inflated_bytes current e <= maxBlobSize.
+Proof. exact inflated_bytes_bounded. Qed.
+Print Assumptions C06_inflate_bounded.
+
+Theorem C06_inflate_follows_raw_size : forall rs z,
+  inflated_bytes current (EncZlib rs z) <= Z.max 0 (rs + 1).
+Proof. exact inflated_bytes_follow_raw_size. Qed.
+Print Assumptions C06_inflate_follows_raw_size.
 
 (* ---- the code as it was found violates the property (findings, all repaired in /repo) ---- *)
 Definition ex_hdr : frame Z :=
@@ -207,6 +260,14 @@ Proof.
   exists [ex_hdr; Frame 12 12 (HdrOk TyData 50) 50
                         (BlobOk (Blob (EncZlib 80 (InflTrailing 80)) (PData (DOk [5; 9]))))].
   vm_compute. intuition congruence.
+Qed.
+
+(* (f) zip bomb: the whole stream was inflated before its length was compared with raw_size: a
+   blob announcing 117 bytes made the decoder produce 2 GiB (memory exhausted; the one-shot czlib
+   call of the cgo build panicked at exactly 2^31 bytes).  Replayed with harness/cmd/c06bomb. *)
+Theorem C06_inflate_bounded_refuted : ~ (forall e, inflated_bytes legacy e <= maxBlobSize).
+Proof.
+  intro H. specialize (H (EncZlib 117 (InflOk 2147483648))). vm_compute in H. apply H. reflexivity.
 Qed.
 
 (* ---- non-vacuity ---- *)
@@ -296,8 +357,12 @@ Module InBlockExamples.
   Example bad_dense_damaged : in_block_damage cfg_all bad_dense.
   Proof.
     eapply (IB_dense_missing cfg_all bad_dense _ _ 8);
-      [right; left; reflexivity|left; reflexivity|reflexivity|right; left; reflexivity|reflexivity].
+      [right; left; reflexivity|left; reflexivity|reflexivity|right; left; reflexivity|reflexivity|reflexivity].
   Qed.
+  (* ... while a DenseNodes message with no column at all is a group without nodes *)
+  Example empty_dense_ok :
+    scan_result cfg_all dstate0 [table; (2, WMsg [(2, WMsg [])])] = Ok [].
+  Proof. vm_compute. reflexivity. Qed.
   Example bad_dense_result : scan_result cfg_all dstate0 bad_dense = Err E_NO_LATS.
   Proof. vm_compute. reflexivity. Qed.
 
@@ -348,11 +413,16 @@ Print Assumptions C06_stringtable_removed_is_err.
 Module BytesExample.
   Definition ph (l : list Z) : hdr :=
     match l with [1; n] => HdrOk TyData n | [0; n] => HdrOk TyHeader n | _ => HdrBad end.
-  Definition pb (l : list Z) : blobp Z :=
+  (* the payload is decoded by the decoder the block type selects, whatever the bytes were meant to be *)
+  Definition pb (ty : btype) (l : list Z) : blobp Z :=
     match l with
-    | 7 :: objs => BlobOk (Blob EncRaw (PData (DOk objs)))
-    | [9] => BlobOk (Blob EncRaw (PHeader (HOk true)))
-    | _ => BlobBad
+    | [] => BlobBad
+    | x :: r =>
+        match ty with
+        | TyData => BlobOk (Blob EncRaw (PData (if x =? 7 then DOk r else DErr)))
+        | TyHeader => BlobOk (Blob EncRaw (PHeader (if (x =? 9) && (Nat.eqb (length r) 0) then HOk true else HBad)))
+        | TyOther => BlobOk (Blob EncRaw (PHeader HBad))
+        end
     end.
   Definition file : list bframe := [BFrame 2 [0; 1] [9]; BFrame 2 [1; 3] [7; 41; 42]].
   Example file_bytes : encode file = [0; 0; 0; 2; 0; 1; 9;  0; 0; 0; 2; 1; 3; 7; 41; 42].
@@ -365,5 +435,16 @@ Module BytesExample.
                              /\ b_scan ph pb legacy (firstn 11 (encode file)) = Result [] Done.
   Proof. vm_compute. split; reflexivity. Qed.
   Example cut_on_boundary : b_scan ph pb current (firstn 7 (encode file)) = Result [] Done.
+  Proof. vm_compute. reflexivity. Qed.
+  (* outside the aligned domain: stray bytes after the file, a prefix that lies, a data block first *)
+  Example pb_sound : parse_sound pb.
+  Proof.
+    intros ty [|x r] b H; cbn in H; [discriminate|].
+    destruct ty; inversion H; subst; cbn; try exact I.
+    destruct (x =? 7); discriminate.
+  Qed.
+  Example stray_bytes : b_scan ph pb current (encode file ++ [0; 0; 0]) = Result [(7, [41; 42])] Failed.
+  Proof. vm_compute. reflexivity. Qed.
+  Example lying_prefix : b_scan ph pb current [0; 0; 0; 3; 0; 1; 9; 0; 0; 0; 2; 1; 3; 7; 41; 42] = Result [] Failed.
   Proof. vm_compute. reflexivity. Qed.
 End BytesExample.
